@@ -29,19 +29,34 @@
        visited, so the element-wise meaning holds there iff f(0,0) = 0 (stated in the theorem); scalar forms on a
        sparse target touch stored elements only.  The kernels as they were before the repairs 88237f8b / 245464d7
        (found with this model) are refuted on the inputs that exposed them (C01_sparse_*_before_repair_refuted);
+     * COMPRESSED MATRIX STORAGE AND KERNELS (C01SparseMatModel.v: one svec per major line + the shared capacity;
+       set_element / major_reserve / reserve / clear as in cpu/sparse_matrix.hpp; the sparse cases of
+       kernels/default/matrix_assign.hpp): invariant preservation (every line sorted and below the minor size, line
+       nnz <= line capacity, sum of line capacities <= nnz_capacity) and the element-wise meaning, for all shapes
+       incl. 0 x k, both relative orientations (same: line by line; cross: collect-sort-write resp. transposed
+       temporary), plain and functor kernels with every functor, compressed and dense targets
+       (theorems C01_sparse_matrix_...);
+     * SPARSE EXPRESSION ITERATORS (C01SparseExpr.v: union iterator of a+b as repaired by 32ed6769 - found with this
+       model -, intersection iterator of a*b, scalar multiples, abs/sqr, unit_vector): the yielded sequence is sorted
+       and denotes the documented value, so expressions are legal sources of all kernels
+       (C01_sparse_expression_iterator_correct); the iterator before the repair is refuted on its input;
    COMPARED / MONITORED only (tools/c01.py, tools/c01_sparse.py): that the C++ implements these models - generated
    programs, exact comparison of compiled C++ (long/double, default kernels and CBLAS) against the extracted
    interpreter and an independent evaluator; for the sparse part command sequences (storage operations, kernels with
-   six functors, plain / compound / noalias operator forms, mixed dense/sparse, both matrix orientations) are run by
-   harness/c01_sparse.cpp and by the extracted C01SparseExec.run_cmd and compared exactly INCLUDING capacities and the
+   six functors, plain / compound / noalias operator forms, mixed dense/sparse, both matrix orientations, nine shapes
+   of sparse right-hand-side expressions) are run by harness/c01_sparse.cpp and by the extracted C01SparseExec.run_cmd and compared exactly INCLUDING capacities and the
    stored index sequences, with an independent monitor of the storage invariant and of the element-wise meaning.
-   NOT PROVED: the compressed_matrix model (C01SparseMatModel.v) and the statement level (C01SparseExec.v: temporaries
-   of the plain forms, `-=` as `+=` of (-1)*e) are executable and compared on every run but have no theorems yet;
-   sparse EXPRESSIONS (a+b, c*a, a*b of sparse operands: the merging iterators of cpu/iterator.hpp) and
-   prod(sparse matrix, vector) are not modelled; dense block kernels, OpenBLAS.
+   NOT PROVED (executable and compared on every run only): the statement level C01SparseExec.v (which kernel an
+   operator form calls: temporaries of the plain forms, `-=` as `+=` of (-1)*e, the defaulted copy assignment) - the
+   theorems are about the kernels and iterators it composes; prod(sparse matrix, vector), row/column proxies of
+   compressed matrices and sparse reductions are not modelled; dense block kernels, OpenBLAS.
+   Observations recorded by the sparse stream, not violations of the property as modelled: `x op= scalar` on a sparse
+   target touches stored elements only (C01_sparse_scalar_stored_only); compressed = expression (sparse.hpp:131),
+   compressed_matrix = matrix of the other orientation (sparse.hpp:243), compressed_matrix = dense matrix and
+   `x -= a*b` with sparse a, b (compose functor lacks left/right_zero_remains) do not compile.
    `vden`/`mden` ARE the documented meaning (quickref/remora.rst), written as Gallina. *)
 From Coq Require Import ZArith List Bool Arith Lia.
-From SharkV Require Import C01Model C01Proofs C01Opt C01OptProofs C01SparseModel C01SparseProofs C01SparseFunProofs.
+From SharkV Require Import C01Model C01Proofs C01Opt C01OptProofs C01SparseModel C01SparseProofs C01SparseFunProofs C01SparseMatModel C01SparseMatProofs C01SparseExpr C01SparseExprProofs.
 Import ListNotations.
 Open Scope Z_scope.
 
@@ -481,3 +496,138 @@ Proof.
   repeat split; try (vm_compute; repeat split; auto; lia);
     try (intros e H; vm_compute in H; repeat (destruct H as [<-|H]; [cbn; lia|]); destruct H).
 Qed.
+
+(* ======================================================================================================
+   COMPRESSED MATRIX STORAGE AND KERNELS (C01SparseMatModel.v).  Coordinates are (major line, minor index): rows and
+   columns for row_major, columns and rows for column_major; "same"/"cross" = source has the target's / the opposite
+   orientation.
+   ====================================================================================================== *)
+(* compressed_matrix_impl::set_element at a legal position of line i: invariant (every line sorted and below the minor
+   size, line nnz <= line capacity, sum of line capacities = nnz_reserved <= nnz_capacity) kept, one entry changed *)
+Theorem C01_sparse_matrix_set_element_correct : forall (m : smat) (i p idx : nat) (x : Z),
+  sm_inv m -> (i < sm_major m)%nat -> pos_ok (sm_row m i) p idx ->
+  let m' := fst (sm_set_element m i p idx x) in
+  sm_inv m' /\ sm_major m' = sm_major m /\ sm_minor m' = sm_minor m /\ (sm_cap m <= sm_cap m')%nat /\
+  snd (sm_set_element m i p idx x) = S p /\
+  (forall a b, smden m' a b = if (a =? i)%nat && (b =? idx)%nat then x else smden m a b) /\
+  (forall a b, smstored m' a b = (a =? i)%nat && (b =? idx)%nat || smstored m a b).
+Proof. exact sm_set_element_correct. Qed.
+Print Assumptions C01_sparse_matrix_set_element_correct.
+
+Theorem C01_sparse_matrix_reserve_clear_correct : forall (m : smat) (i n : nat) (ex : bool),
+  sm_inv m ->
+  ((i < sm_major m)%nat ->
+     let m' := sm_major_reserve m i n ex in
+     sm_inv m' /\ sm_major m' = sm_major m /\ sm_minor m' = sm_minor m /\
+     (Nat.min (sm_minor m) n <= sv_cap (sm_row m' i))%nat /\ (forall a, sv_el (sm_row m' a) = sv_el (sm_row m a))) /\
+  (sm_inv (sm_clear m) /\ sm_major (sm_clear m) = sm_major m /\ sm_minor (sm_clear m) = sm_minor m /\
+   (forall a b, smden (sm_clear m) a b = 0)).
+Proof. intros m i n ex H. split; [intros L; exact (sm_major_reserve_correct m i n ex H L) | exact (sm_clear_correct m H)]. Qed.
+Print Assumptions C01_sparse_matrix_reserve_clear_correct.
+
+(* plain assignment between compressed matrices: same orientation copies the stored sequences line by line,
+   opposite orientation (collect, sort, write group by group) yields the transposed coordinates *)
+Theorem C01_sparse_matrix_assign_same_correct : forall m e : smat,
+  sm_inv m -> sm_inv e -> sm_major m = sm_major e -> sm_minor m = sm_minor e ->
+  let r := km_assign_same m e in
+  sm_inv r /\ sm_major r = sm_major m /\ sm_minor r = sm_minor m /\
+  (forall i, (i < sm_major m)%nat -> sv_el (sm_row r i) = sv_el (sm_row e i)) /\
+  (forall i j, (i < sm_major m)%nat -> smden r i j = smden e i j).
+Proof. exact km_assign_same_correct. Qed.
+Print Assumptions C01_sparse_matrix_assign_same_correct.
+
+Theorem C01_sparse_matrix_assign_cross_correct : forall m e : smat,
+  sm_inv m -> sm_inv e -> sm_major e = sm_minor m -> sm_minor e = sm_major m ->
+  let r := km_assign_cross m e in
+  sm_inv r /\ sm_major r = sm_major m /\ sm_minor r = sm_minor m /\
+  (forall i j, (i < sm_major m)%nat -> smstored r i j = smstored e j i /\ smden r i j = smden e j i).
+Proof. exact km_assign_cross_correct. Qed.
+Print Assumptions C01_sparse_matrix_assign_cross_correct.
+
+(* functor kernels between compressed matrices, every functor f: stored set = union, f(target,source) wherever
+   something is stored on either side, untouched zero elsewhere (= the element-wise meaning iff f(0,0) = 0) *)
+Theorem C01_sparse_matrix_fun_same_correct : forall (f : Z -> Z -> Z) (m e : smat),
+  sm_inv m -> sm_inv e -> sm_major m = sm_major e -> sm_minor m = sm_minor e ->
+  let r := km_fun_same f m e in
+  sm_inv r /\ sm_major r = sm_major m /\ sm_minor r = sm_minor m /\
+  (forall i, (i < sm_major m)%nat -> sv_el (sm_row r i) = merge_el f (sv_el (sm_row m i)) (sv_el (sm_row e i))) /\
+  (forall i j, (i < sm_major m)%nat ->
+     smstored r i j = smstored m i j || smstored e i j /\
+     smden r i j = if smstored m i j || smstored e i j then f (smden m i j) (smden e i j) else 0) /\
+  (f 0 0 = 0 -> forall i j, (i < sm_major m)%nat -> smden r i j = f (smden m i j) (smden e i j)).
+Proof. exact km_fun_same_correct. Qed.
+Print Assumptions C01_sparse_matrix_fun_same_correct.
+
+Theorem C01_sparse_matrix_fun_cross_correct : forall (f : Z -> Z -> Z) (m e : smat),
+  sm_inv m -> sm_inv e -> sm_major e = sm_minor m -> sm_minor e = sm_major m ->
+  let r := km_fun_cross f m e in
+  sm_inv r /\ sm_major r = sm_major m /\ sm_minor r = sm_minor m /\
+  (forall i j, (i < sm_major m)%nat ->
+     smstored r i j = smstored m i j || smstored e j i /\
+     smden r i j = if smstored m i j || smstored e j i then f (smden m i j) (smden e j i) else 0) /\
+  (f 0 0 = 0 -> forall i j, (i < sm_major m)%nat -> smden r i j = f (smden m i j) (smden e j i)).
+Proof. exact km_fun_cross_correct. Qed.
+Print Assumptions C01_sparse_matrix_fun_cross_correct.
+
+(* dense matrix <- compressed matrix, plain and with every functor, both relative orientations: the full element-wise
+   meaning, also where the source stores nothing (c4c2dce0) *)
+Theorem C01_sparse_matrix_dense_target_same_correct : forall (f : Z -> Z -> Z) (rzi : bool) (d : dmat) (e : smat),
+  sm_inv e -> dshape d (sm_major e) (sm_minor e) -> (rzi = true -> forall x, f x 0 = x) ->
+  (dshape (km_assign_ds_same d e) (sm_major e) (sm_minor e) /\
+   forall i j, (i < sm_major e)%nat -> dmden (km_assign_ds_same d e) i j = smden e i j) /\
+  (dshape (km_fun_ds_same f rzi d e) (sm_major e) (sm_minor e) /\
+   forall i j, (i < sm_major e)%nat -> (j < sm_minor e)%nat ->
+               dmden (km_fun_ds_same f rzi d e) i j = f (dmden d i j) (smden e i j)).
+Proof. exact km_ds_same_correct. Qed.
+Print Assumptions C01_sparse_matrix_dense_target_same_correct.
+
+Theorem C01_sparse_matrix_dense_target_cross_correct : forall (f : Z -> Z -> Z) (rzi : bool) (d : dmat) (e : smat),
+  sm_inv e -> dshape d (sm_minor e) (sm_major e) -> (rzi = true -> forall x, f x 0 = x) ->
+  (dshape (km_assign_ds_cross d e) (sm_minor e) (sm_major e) /\
+   forall i j, (i < sm_minor e)%nat -> (j < sm_major e)%nat -> dmden (km_assign_ds_cross d e) i j = smden e j i) /\
+  (dshape (km_fun_ds_cross f rzi d e) (sm_minor e) (sm_major e) /\
+   forall i j, (i < sm_minor e)%nat -> (j < sm_major e)%nat ->
+               dmden (km_fun_ds_cross f rzi d e) i j = f (dmden d i j) (smden e j i)).
+Proof. exact km_ds_cross_correct. Qed.
+Print Assumptions C01_sparse_matrix_dense_target_cross_correct.
+
+(* satisfiable premises: empty matrices of every shape incl. 0 x 3 and 3 x 0, and a filled 2 x 3 one *)
+Example C01_sparse_matrix_wf_examples :
+  sm_inv (sm_empty 0 3) /\ sm_inv (sm_empty 3 0) /\ sm_inv (sm_empty 1 1) /\
+  sm_inv (sm_put (sm_put (sm_put (sm_empty 2 3) 1 2 5) 0 1 (-1)) 1 0 7) /\
+  smden (sm_put (sm_put (sm_put (sm_empty 2 3) 1 2 5) 0 1 (-1)) 1 0 7) 1 2 = 5 /\
+  dshape [[1; 2; 3]; [4; 5; 6]] 2 3.
+Proof.
+  split; [apply sm_empty_inv|]. split; [apply sm_empty_inv|]. split; [apply sm_empty_inv|].
+  split; [apply sm_invb_spec_ex; vm_compute; reflexivity|]. split; [vm_compute; reflexivity|].
+  split; [reflexivity|]. intros row [<-|[<-|[]]]; reflexivity.
+Qed.
+
+(* ======================================================================================================
+   SPARSE EXPRESSIONS as right-hand sides (C01SparseExpr.v): a+b (union iterator), c*a, a*b (intersection iterator),
+   abs/sqr, unit_vector over sparse operands.  The sequence the expression's iterator yields is strictly increasing,
+   below the size, and denotes the documented element-wise value; as a source operand it therefore satisfies the
+   premises of every kernel theorem above (sv_inv, sden = sx_den).
+   ====================================================================================================== *)
+Theorem C01_sparse_expression_iterator_correct : forall (n : nat) (env : nat -> list (nat * Z)) (e : sxv),
+  (forall id, sorted_in 0 n (env id)) -> sx_wf n e = true ->
+  sorted_in 0 n (sx_stream true env e) /\
+  (forall i, oz (lookup i (sx_stream true env e)) = sx_den env e i) /\
+  sv_inv (sx_source true n env e) /\ sv_size (sx_source true n env e) = n /\
+  (forall i, sden (sx_source true n env e) i = sx_den env e i).
+Proof.
+  intros n env e H W. destruct (sx_stream_correct n env e H W) as (A & B).
+  destruct (sx_source_correct n env e H W) as (C & D & E). auto.
+Qed.
+Print Assumptions C01_sparse_expression_iterator_correct.
+
+(* binary_transform_iterator before 32ed6769: {} + {2:-1, 3:-4} yields {0:0, 3:-4} *)
+Theorem C01_sparse_expression_add_before_repair_refuted :
+  let env := fun id : nat => match id with 0%nat => [] | _ => [(2%nat, -1); (3%nat, -4)] end in
+  (forall id, sorted_in 0 6 (env id)) /\
+  sx_stream false env (SXAdd (SXRef 0) (SXRef 1)) = [(0%nat, 0); (3%nat, -4)] /\
+  oz (lookup 2 (sx_stream false env (SXAdd (SXRef 0) (SXRef 1)))) = 0 /\
+  sx_den env (SXAdd (SXRef 0) (SXRef 1)) 2 = -1 /\
+  sx_stream true env (SXAdd (SXRef 0) (SXRef 1)) = [(2%nat, -1); (3%nat, -4)].
+Proof. exact sx_add_before_repair_refuted. Qed.
+Print Assumptions C01_sparse_expression_add_before_repair_refuted.
